@@ -477,12 +477,14 @@ def run_case(case):
         ci = [int(x) for x in ci]
         Q = true_q(case, ci)
         Qs.append(Q)
+        if case.get('level1_only') and h >= 2:
+            continue      # modularity_louvain_dir without the Lean replay: labels on every level, q = Q on level 1 only (what is true of D6 code)
         if not close(q, Q, case_tol(case)):
             F.append(('q-equals-Q', {'q': q, 'Q': float(Q), 'Q_exact': str(Q), 'ci': ci, 'level': h, 'levels': len(levels)},
                       cond_of(case, h)))
     res['Qs'] = [None if x is None else str(x) for x in Qs]
     # plain (non-hierarchical) call of the hierarchical routines, same seed: the pair it returns must be consistent too
-    if hier:
+    if hier and not (case.get('level1_only') and len(levels) >= 2):
         st2, out2, rec2 = invoke(bct, case, case['seed'], None, hierarchy=False)
         if st2 == 'ok':
             (ci, q), = _levels(out2, False)
@@ -501,7 +503,7 @@ def run_case(case):
         else:
             res['extra']['plain_timeout'] = 1
     # ---- C07
-    if r in OPTIMISERS and levels and Qs[-1] is not None:
+    if r in OPTIMISERS and levels and Qs[-1] is not None and not case.get('level1_only'):
         start = list(ci0) if ci0 is not None else list(range(1, n + 1))
         Q0 = true_q(case, start)
         res['Q0'] = str(Q0)
@@ -797,10 +799,14 @@ def gen_cases(rs, tier, routines=None):
     rnd_seed = lambda: int(rs.randint(2 ** 31))
     gam = lambda: GAMMAS[rs.randint(3)]
 
+    fam = ['?']
+
     def add(routine, A, opt=None, ci0=None, **kw):
         W = to_list(A)
-        c = {'routine': routine, 'W': W, 'gamma': kw.pop('gamma', None) or gam(), 'opt': opt, 'ci0': ci0, 'seed': rnd_seed()}
+        c = {'routine': routine, 'W': W, 'gamma': kw.pop('gamma', None) or gam(), 'opt': opt, 'ci0': ci0, 'seed': rnd_seed(), 'family': fam[0]}
         c.update(kw)
+        if routine == 'modularity_louvain_dir' and (len(W) > LARGE_N or (c.get('scale') or 0) < 0):
+            c['level1_only'] = True     # D6 is accepted only through the Lean replay; where that is unavailable judge what is true of the code
         u = rs.rand()
         if not c.get('scale') and not c.get('malformed') and u < .24:
             # storage axis: the same values as bool / uint8 / int32 / int64 / float32 / Fortran-ordered float64
@@ -810,8 +816,8 @@ def gen_cases(rs, tier, routines=None):
                 allowed.append('uint8')
                 if Aw.max() <= 1:
                     allowed += ['bool', 'bool']
-            if routine == 'modularity_louvain_dir':
-                allowed.remove('float32')      # its open finding D6 is accepted only through the exact replay, which single precision has not
+            if routine == 'modularity_louvain_dir' and allowed[int(u / .24 * len(allowed)) % len(allowed)] == 'float32':
+                c['level1_only'] = True        # D6 is accepted only through the exact replay, which single precision has not
             c['variant'] = allowed[int(u / .24 * len(allowed)) % len(allowed)]
         cases.append(c)
 
@@ -867,6 +873,7 @@ def gen_cases(rs, tier, routines=None):
     parts = {n: list(set_partitions(n)) for n in (3, 4, 5)}
 
     for (r, opt) in variants:
+        fam[0] = 'a-all-starts'
         # (a) every set partition of a few small graphs as the start (routines that take one); singletons otherwise
         nsmall = (6 if not big else 80)
         for _ in range(nsmall):
@@ -884,6 +891,7 @@ def gen_cases(rs, tier, routines=None):
             else:
                 for g in GAMMAS:
                     add(r, A, opt, None, gamma=g, **extra)
+        fam[0] = 'b-random'
         # (b) random larger graphs, random starts
         nrand = (60 if not big else 1600)
         for _ in range(nrand):
@@ -899,6 +907,7 @@ def gen_cases(rs, tier, routines=None):
                 k = int(rs.randint(1, n + 1))
                 ci0 = encode_partition(rs, _rg_canon(rs.randint(0, k, size=n).tolist()))
             add(r, A, opt, ci0, **extra)
+    fam[0] = 'f-cross-routine'
     # (f) cross-routine refinement: start = output of the corresponding Louvain routine / of the routine itself / of
     #     community_louvain where the objectives coincide, same network and gamma (near-optimal starts: a gain formula that
     #     disagrees with the scored Q only slightly shows up here and nowhere else), gamma also off the dyadic grid
@@ -925,16 +934,15 @@ def gen_cases(rs, tier, routines=None):
                     if not valid(r, A, opt) or not valid(src['routine'], A, src.get('opt')):
                         continue
                     add(r, A, opt, None, gamma=g, start_from=dict(src, seed=rnd_seed()))
+    fam[0] = 'g-scale'
     # (g) scale axis: the same integer network times an exact dyadic factor.  Q is invariant under W -> cW, the code's absolute
     #     constants (1e-10 gain threshold, np.allclose / np.min(W) < -1e-10 style tests) are not: moves may legitimately differ at
-    #     tiny scales, so these runs are judged by the predicates only (no move-by-move replay)
+    #     tiny scales, so these runs are judged by the predicates only (no replay)
     for (r, opt) in variants:
         if opt == 'potts':
             continue                      # requires a 0/1 matrix
         ntr = (10 if r == 'community_louvain' else 3) if not big else 40
         for e in SCALES:
-            if r == 'modularity_louvain_dir' and e < 0:
-                continue      # open finding D6 is accepted only where the as-written model reproduces the run, which needs the replay
             for _ in range(ntr):
                 n = int(rs.randint(4, 13))
                 A = graph_for(r, n, opt)
@@ -947,9 +955,10 @@ def gen_cases(rs, tier, routines=None):
                 if r in TAKES_CI and rs.rand() < .7:
                     k = int(rs.randint(1, n + 1))
                     ci0 = encode_partition(rs, _rg_canon(rs.randint(0, k, size=n).tolist()))
-                if r == 'modularity_louvain_dir':
+                if r == 'modularity_louvain_dir' and e > 0:
                     extra['replay_ok'] = True     # at 2**20 every float operation scales exactly and no gain lies in (1e-10/c, 1e-10]
                 add(r, A, opt, ci0, scale=e, **extra)
+    fam[0] = 'h-tolerance-window'
     # (h) the window in which absolute tolerances bite: weights below ~1e-8 (np.allclose's atol, 'is it symmetric?' style tests)
     #     but gains still above the 1e-10 move threshold - directed networks times 2**-29 .. 2**-32, objectives whose matrix
     #     scales with the weights
@@ -981,6 +990,7 @@ def gen_cases(rs, tier, routines=None):
                     continue
                 k = int(rs.randint(1, n + 1))
                 add(r, A, opt, encode_partition(rs, _rg_canon(rs.randint(0, k, size=n).tolist())), gamma=('1' if r == 'modularity_und_sign' else None), scale=e)
+    fam[0] = 'k-corners-mixed-sign-n12-offgrid-gamma'
     # (k) the corners of the quantifier: symmetric / directed networks with NEGATIVE entries but positive total weight for the
     #     routines that have no negativity test (everything except community_louvain), n = 1 and n = 2, gamma far from 1
     for (r, opt) in variants:
@@ -1033,6 +1043,7 @@ def gen_cases(rs, tier, routines=None):
             add(r, A, opt, encode_partition(rs, _rg_canon(rs.randint(0, max(1, n), size=n).tolist())), gamma=g)
             if r != 'modularity_und_sign':
                 add(r, A, opt, None, gamma=g)
+    fam[0] = 'm-size'
     # (m) SIZE axis: sizes on both sides of the thresholds an implementer would pick for a fast path (block sizes, sparse/dense
     #     switches, number of modules), with structures that matter: sparse hierarchical planted partitions (several Louvain levels,
     #     density far below 10 %), many small modules (> 32), dense networks (> 500 edges).  Beyond n = LARGE_N the Lean model is not
@@ -1054,8 +1065,6 @@ def gen_cases(rs, tier, routines=None):
                          (int(rs.choice([64, 65])), st3[0]), (int(rs.choice([100, 128, 129])), st3[1]),
                          (int(rs.choice([256, 257, 300, 257, 300])), st3[2])]
         for nn, st_ in todo:
-            if r == 'modularity_louvain_dir' and nn > LARGE_N:
-                continue      # its open finding D6 is accepted only through the Lean replay of the as-written model
             if st_ == 'dense' and nn > 129:
                 nn = int(rs.choice([100, 128, 129]))          # n^2/2 edges: keep the dense ones moderate
             signed = r in SIGN or opt in ('negative_sym', 'negative_asym')
@@ -1088,6 +1097,7 @@ def gen_cases(rs, tier, routines=None):
             add(r, A, opt, ci0, gamma=g_, size_axis=st_, **extra)
             if r in ('modularity_und', 'modularity_dir') and (big or nn <= 129):
                 add(r, A, opt, None, gamma=g_, size_axis=st_)                 # spectral path at this size
+    fam[0] = 'c-given-and-spectral'
     # (c) modularity_und/_dir/_und_sign with a given partition, and their own spectral partition (kci=None)
     if not routines or any(g in routines for g in GIVEN):
         for r in GIVEN:
@@ -1104,6 +1114,7 @@ def gen_cases(rs, tier, routines=None):
                     add(r, A, opt, None)      # kci=None: spectral path, decisions recorded for the model
     # (custom objective matrices are passed as nested lists: as an ndarray the routine raises ValueError under
     #  NumPy >= 1.25 - `B in ('negative_sym', ...)` on an array - which is outside C02/C07: they name the built-in objectives)
+    fam[0] = 'e-malformed'
     # (e) malformed stream: asymmetric input to the _und routines (may spin: watchdog), outcome: no claim
     for r in ('modularity_finetune_und', 'modularity_louvain_und', 'modularity_finetune_und_sign'):
         if routines and r not in routines:
@@ -1400,7 +1411,7 @@ def run_check(ck, preds):
     ck.assumptions += ['total weight positive (signed routines: at least one nonzero weight; community_louvain negative_*: positive weights present and sum(W) != 0)',
                        '_und routines are fed symmetric matrices (asymmetric ones only in the malformed stream, no claim)',
                        'integer weights: float arithmetic on them is exact; q is compared at 1e-9 (1e-5 for float32 storage)',
-                       'the move-by-move replay needs dyadic gamma, unscaled weights and double precision; other runs are judged by the predicates and the q correspondence',
+                       'the replay of a run from its recorded draws (compared on labels, q, every level and draws consumed) needs dyadic gamma, unscaled weights and double precision; other runs are judged by the predicates and the q correspondence',
                        'networks with more than %d nodes (size axis, up to n = 300) are judged by the exact Python oracles only; the Lean model replay and the q correspondence run for n <= %d' % (LARGE_N, LARGE_N),
                        'in-domain calls that hit the watchdog are re-tried once with 10x the budget, then counted; more than max(3, 0.5% of the cases) is a break']
     # T-gen: modularity matrix and q of modularity_und/_dir interpreted, whole bodies of the Louvain routines source-pinned (translate/cores.py, family modq)
@@ -1468,6 +1479,9 @@ def run_check(ck, preds):
             continue
         failed = {p for p, _, _ in r['fails']}
         # model: definition + coded closed form for every returned pair that passed the oracle
+        ck.count('family:' + str(c.get('family', 'witness')))
+        if c.get('level1_only'):
+            ck.count('louvain_dir_level1_only')      # labels on every level + q = Q on level 1; no replay, no C07 predicates (D6)
         if c.get('size_axis'):
             ck.count('size_axis_cases'); ck.count('size_axis:n=%d' % len(c['W'])); ck.count('size_axis:' + c['size_axis'])
             if r['status'] == 'ok' and len(r['levels']) >= 2:
@@ -1485,6 +1499,8 @@ def run_check(ck, preds):
         #  custom objective matrix, whose q = sum(B)/s scales with 1/c)
         if not failed & {'labels-1..k', 'q-equals-Q', 'given-partition-q'} and not (c.get('scale') and c.get('opt') == 'custom'):
             for h, (ci, q) in enumerate(r['levels']):
+                if c.get('level1_only') and h >= 1:
+                    break          # levels >= 2 of modularity_louvain_dir are not consistent (D6) and not judged here
                 qlines.append(q_line(c, c['ci0'] if (c['routine'] in GIVEN and c.get('ci0') is not None) else ci)); qidx.append((n_, h))
         if c.get('start_origin'):
             ck.count('cross_refinement_cases'); ck.count('cross_from:' + c['start_origin'].rsplit(':', 1)[0])
@@ -1496,7 +1512,9 @@ def run_check(ck, preds):
             # spectral path: the model bisects with the recorded eigen-solver decisions
             slines.append('spectral kind=%s n=%d W=%s gamma=%s oracle=%s' % (kind_of(c), len(c['W']), rat_list(c['W']), c['gamma'], ','.join(r['oracle']) or '-'))
             sidx.append(n_)
-        if c['routine'] in REPLAY_OPS and c.get('variant') == 'float32':
+        if c.get('level1_only'):
+            pass
+        elif c['routine'] in REPLAY_OPS and c.get('variant') == 'float32':
             ck.count('replay_skipped_float32')    # single-precision rounding decides ties differently; predicates (1e-5) + q correspondence only
         elif c['routine'] in REPLAY_OPS and c.get('scale') and not c.get('replay_ok'):
             ck.count('replay_skipped_scaled')     # absolute thresholds are not scale invariant: predicates only
